@@ -16,7 +16,7 @@ import z3
 from symx import engine as E
 from symx import shims, gabs, runner
 from symx.absmap import NAMED
-from symx.common import Report, import_repo, src_hash, run_instances, write_replay, load_findings, VERIF
+from symx.common import Report, import_repo, src_hash, run_instances, write_replay, load_findings, VERIF, REPO
 from symx.matchlib import TOL
 
 PID = 'C16'
@@ -343,7 +343,7 @@ def run_crosshair(tier):
         f.write('"""generated from the attributes compared in logprob_trans: %s"""\n' % attrs)
         for a in attrs:
             f.write(CH_TEMPLATE.replace('{attr}', a))
-    env = dict(os.environ, PYTHONPATH=f"/repo:{VERIF}")
+    env = dict(os.environ, PYTHONPATH=f"{REPO}:{VERIF}")
     cmd = [sys.executable, '-m', 'crosshair', 'check', '--report_all', '--per_condition_timeout', '20' if tier == 'quick' else '120', fn]
     try:
         p = subprocess.run(cmd, env=env, capture_output=True, text=True, timeout=900)
